@@ -161,6 +161,7 @@ def c04(ctx):
     ctx.mc('Framing', 'MC_Framing_6.cfg' if thorough else 'MC_Framing_5.cfg', timeout=3000)
     # the model of the historical behaviour must exhibit the accepted-misplaced-armor defect (F15)
     ctx.mc('Framing', 'MC_Framing_5_F15.cfg', expect_violation='Conforms', coverage=False)
+    ctx.mc('Framing', 'MC_Framing_F54.cfg', expect_violation='Conforms', coverage=False)
     # 2. direction 1: every sequence up to the bound, concretised, through the real loader
     full = 5 if thorough else 4
     seqs = list(d.all_sequences(full))
@@ -580,7 +581,10 @@ def c14(ctx):
         cases = d.all_cases(rng, thorough)
         hp = {'H': homes['H'].path, 'Hpub': homes['Hpub'].path, 'Hlock': homes['Hlock'].path,
               'a': homes['a'], 'b': homes['b'], 'la': homes['la'], 'lb': homes['lb']}
-        out = core.pool_map(d.one_case, [(c, hp, ctx.seed) for c in cases], chunksize=1)
+        # (thorough: the whole matrix three times, with other edits / names / line lengths each time)
+        jobs = [(c, hp, ctx.seed * 10 + k) for k in range(3 if thorough else 1) for c in
+                (cases if k == 0 else d.all_cases(random.Random(ctx.seed * 10 + k), True))]
+        out = core.pool_map(d.one_case, jobs, chunksize=1)
     finally:
         homes['H'].close()
         homes['Hpub'].close()
@@ -631,7 +635,7 @@ def c16(ctx):
     ctx.mc('Walker', 'MC_Walker.cfg', timeout=3000)
     # the start directory's identity missing from the ancestor lists (F30) must be exhibited
     ctx.mc('Walker', 'MC_Walker_F30.cfg', expect_violation='Correct', coverage=False)
-    n = 12000 if thorough else 700
+    n = 50000 if thorough else 700
     out = core.pool_map(d.one_graph, [(ctx.seed, i, {}) for i in range(n)])
     recs = [r for o in out for r in o]
     metas = [r.pop('meta') for r in recs]
@@ -661,7 +665,7 @@ def c06(ctx):
     thorough = ctx.tier == 'thorough'
     ctx.mc('Faults', 'MC_Faults.cfg')
     ctx.mc('Faults', 'MC_Faults_eloop.cfg', expect_violation='NeverAbsent', coverage=False)
-    n = 400 if thorough else 48
+    n = 1000 if thorough else 48
     opt = {'all_errnos': thorough, 'all_calls': thorough}
     out = core.pool_map(d.one_tree, [(ctx.seed, i, opt) for i in range(n)], chunksize=1)
     recs = [r for o in out for r in o]
@@ -711,7 +715,7 @@ def c17(ctx):
     lens = list(range(0, 301)) + [65534, 65535, 65536, 65537, 65538, 131071, 131072, 131073,
                                   1048574, 1048575, 1048576, 1048577, 1048578]
     lens += [rng.randrange(1100000, 3500000) for _ in range(12 if thorough else 2)]
-    reps = 6 if thorough else 1
+    reps = 16 if thorough else 1
     jobs = []
     for rep in range(reps):
         ll = list(lens)
@@ -782,7 +786,7 @@ def c19(ctx):
 def c20(ctx):
     from . import drv_gen as d
     thorough = ctx.tier == 'thorough'
-    n = 3000 if thorough else 160
+    n = 8000 if thorough else 160
     out = core.pool_map(d.one_case, [(ctx.seed, i, {'big': i % 3 == 0}) for i in range(n)], chunksize=1)
     recs = [r for o in out for r in o]
     metas = [r.pop('meta') for r in recs]
